@@ -40,8 +40,8 @@ PROBES = ['killed_inside_cache_set', 'killed_right_after_store', 'acked_index_se
           'directory_removed_on_last_release', 'directory_kept_on_release',
           'disk_full_raised_on_miss', 'disk_full_hit_still_served', 'store_error_propagated']
 BUDGET = {
-    'quick': {'families': 220, 'wall_cap': 300, 'shrink_s': 15},
-    'thorough': {'families': 12000, 'wall_cap': 3000, 'shrink_s': 40},
+    'quick': {'families': 440, 'wall_cap': 420, 'shrink_s': 15},
+    'thorough': {'families': 6000, 'wall_cap': 5400, 'shrink_s': 40},
 }
 COMPONENTS = {
     'real': ['lazy_dataset.core.DiskCacheDataset / _DiskCacheWrapper / inherited CacheDataset.__getitem__',
